@@ -281,10 +281,17 @@ impl Scenario for ActorScen {
         }
         let backend = if rng.chance(1, 2) && !self.crash_focus { Backend::Mem } else { Backend::Disk };
         if backend == Backend::Disk && !self.cap_focus && !self.removal_focus && (self.crash_focus || rng.chance(1, 3)) {
-            if rng.chance(1, 2) {
+            if self.crash_focus && rng.chance(1, 4) {
+                // instead of a crash: an orderly shutdown, judged by what the file holds at the
+                // moment the shutdown reply arrives (the handed-back store still alive)
+                steps.push(AStep::Send { client: 0, req: Req::Shutdown });
                 steps.push(AStep::Await);
+            } else {
+                if rng.chance(1, 2) {
+                    steps.push(AStep::Await);
+                }
+                steps.push(AStep::Crash { l2: rng.chance(2, 3), settle: rng.chance(1, 2) });
             }
-            steps.push(AStep::Crash { l2: rng.chance(2, 3), settle: rng.chance(1, 2) });
         } else {
             steps.push(AStep::Await);
         }
@@ -1115,6 +1122,18 @@ async fn run(plan: &ActorPlan, cx: &mut Cx, cap_focus: bool, removal_focus: bool
             node.handle.shutdown().await.map_err(|e| Violation::new("shutdown-store/failed", format!("shutdown failed: {e:#}")))?
         }
     };
+    if let Some(disk) = disk.as_ref() {
+        // before the handed-back store is touched (reading it would commit its open transaction)
+        // already now, while the returned store is still alive: shutdown is the last thing the
+        // caller hears from the actor, so what it acknowledged must be in the file, not in an open
+        // transaction of the handed-back handle that a kill at this instant would lose
+        let mut now = Sut::from_image(disk.durable_image()).map_err(|e| Violation::new("shutdown-store/reopen", format!("the file does not open right after shutdown: {e}")))?;
+        for d in 0..plan.docs {
+            let got = dump(now.store(), d).map_err(harness)?;
+            compare("shutdown-store/not-durable", &format!("d{d} in the file at the moment shutdown returned (the handed-back store is still alive)"), &got, &m[d as usize].doc)?;
+        }
+        drop(now);
+    }
     for d in 0..plan.docs {
         let got = dump(&mut store, d).map_err(harness)?;
         compare("shutdown-store", &format!("d{d} in the store returned by shutdown"), &got, &m[d as usize].doc)?;
